@@ -203,7 +203,14 @@ class ResponseHandler(BaseProtocol, DataQueue[tuple[RawResponseMessage, StreamRe
     def resume_reading(self, resume_parser: bool = True) -> None:
         was_paused = self._reading_paused
         super().resume_reading(resume_parser)
-        if was_paused:
+        # Resuming the parser may have paused reading again or completed the
+        # response: there is nothing to wait for from the socket in either case.
+        if (
+            was_paused
+            and not self._reading_paused
+            and self._payload is not None
+            and not self._payload.is_eof()
+        ):
             self._reschedule_timeout()
 
     def set_exception(
